@@ -162,6 +162,14 @@
           yr_compiler_set_error_extra_info( \
               compiler, "wrong type \"boolean\" for " op " operator"); \
           break; \
+        case EXPRESSION_TYPE_REGEXP: \
+          yr_compiler_set_error_extra_info( \
+              compiler, "wrong type \"regexp\" for " op " operator"); \
+          break; \
+        default: \
+          yr_compiler_set_error_extra_info( \
+              compiler, "wrong type for " op " operator"); \
+          break; \
       } \
       cleanup; \
       compiler->last_error = ERROR_WRONG_TYPE; \
@@ -200,7 +208,7 @@
     "ABCDEFGHIJKLMNOPQRSTUVWXYZabcdefghijklmnopqrstuvwxyz0123456789+/"
 
 
-#line 204 "libyara/grammar.c"
+#line 212 "libyara/grammar.c"
 
 # ifndef YY_CAST
 #  ifdef __cplusplus
@@ -379,7 +387,7 @@ extern int yara_yydebug;
 #if ! defined YYSTYPE && ! defined YYSTYPE_IS_DECLARED
 union YYSTYPE
 {
-#line 343 "libyara/grammar.y"
+#line 351 "libyara/grammar.y"
 
   YR_EXPRESSION   expression;
   SIZED_STRING*   sized_string;
@@ -394,7 +402,7 @@ union YYSTYPE
   YR_ARENA_REF meta;
   YR_ARENA_REF string;
 
-#line 398 "libyara/grammar.c"
+#line 406 "libyara/grammar.c"
 
 };
 typedef union YYSTYPE YYSTYPE;
@@ -942,23 +950,23 @@ static const yytype_int8 yytranslate[] =
 /* YYRLINE[YYN] -- Source line where rule number YYN was defined.  */
 static const yytype_int16 yyrline[] =
 {
-       0,   362,   362,   363,   364,   365,   366,   367,   368,   372,
-     380,   393,   398,   392,   429,   432,   448,   451,   466,   474,
-     475,   480,   481,   487,   490,   506,   515,   557,   558,   563,
-     580,   594,   608,   622,   640,   641,   647,   646,   663,   662,
-     683,   682,   707,   713,   773,   774,   775,   776,   777,   778,
-     784,   805,   836,   844,   861,   869,   889,   890,   904,   905,
-     906,   907,   908,   912,   913,   927,   931,  1027,  1075,  1136,
-    1181,  1182,  1186,  1221,  1274,  1329,  1360,  1367,  1374,  1387,
-    1398,  1409,  1420,  1431,  1442,  1453,  1464,  1479,  1495,  1507,
-    1582,  1620,  1524,  1749,  1772,  1784,  1812,  1831,  1854,  1902,
-    1909,  1916,  1915,  1962,  1961,  2012,  2020,  2028,  2036,  2044,
-    2052,  2060,  2064,  2072,  2073,  2098,  2118,  2146,  2220,  2252,
-    2270,  2281,  2324,  2340,  2360,  2370,  2369,  2378,  2392,  2393,
-    2398,  2408,  2423,  2422,  2435,  2436,  2441,  2474,  2499,  2555,
-    2562,  2568,  2574,  2584,  2588,  2596,  2608,  2622,  2629,  2636,
-    2661,  2673,  2685,  2697,  2712,  2724,  2739,  2788,  2809,  2844,
-    2879,  2913,  2945,  2969,  2979,  2989,  2999,  3009,  3029,  3049
+       0,   370,   370,   371,   372,   373,   374,   375,   376,   380,
+     388,   401,   406,   400,   437,   440,   456,   459,   474,   482,
+     483,   488,   489,   495,   498,   514,   523,   565,   566,   571,
+     588,   602,   616,   630,   648,   649,   655,   654,   671,   670,
+     691,   690,   715,   721,   781,   782,   783,   784,   785,   786,
+     792,   813,   844,   852,   869,   877,   897,   898,   912,   913,
+     914,   915,   916,   920,   921,   935,   939,  1035,  1083,  1144,
+    1189,  1190,  1194,  1229,  1282,  1337,  1368,  1375,  1382,  1395,
+    1406,  1417,  1428,  1439,  1450,  1461,  1472,  1487,  1503,  1515,
+    1590,  1628,  1532,  1757,  1780,  1792,  1820,  1839,  1862,  1910,
+    1917,  1924,  1923,  1970,  1969,  2020,  2028,  2036,  2044,  2052,
+    2060,  2068,  2072,  2080,  2081,  2106,  2126,  2154,  2228,  2260,
+    2278,  2289,  2332,  2348,  2368,  2378,  2377,  2386,  2400,  2401,
+    2406,  2416,  2431,  2430,  2443,  2444,  2449,  2482,  2507,  2563,
+    2570,  2576,  2582,  2592,  2596,  2604,  2616,  2630,  2637,  2644,
+    2669,  2681,  2693,  2705,  2720,  2732,  2747,  2796,  2817,  2852,
+    2887,  2921,  2953,  2977,  2987,  2997,  3007,  3017,  3037,  3057
 };
 #endif
 
@@ -1774,60 +1782,72 @@ yydestruct (const char *yymsg,
   switch (yykind)
     {
     case YYSYMBOL__IDENTIFIER_: /* "identifier"  */
-#line 313 "libyara/grammar.y"
+#line 321 "libyara/grammar.y"
             { yr_free(((*yyvaluep).c_string)); ((*yyvaluep).c_string) = NULL; }
-#line 1780 "libyara/grammar.c"
+#line 1788 "libyara/grammar.c"
         break;
 
     case YYSYMBOL__STRING_IDENTIFIER_: /* "string identifier"  */
-#line 317 "libyara/grammar.y"
+#line 325 "libyara/grammar.y"
             { yr_free(((*yyvaluep).c_string)); ((*yyvaluep).c_string) = NULL; }
-#line 1786 "libyara/grammar.c"
+#line 1794 "libyara/grammar.c"
         break;
 
     case YYSYMBOL__STRING_COUNT_: /* "string count"  */
-#line 314 "libyara/grammar.y"
+#line 322 "libyara/grammar.y"
             { yr_free(((*yyvaluep).c_string)); ((*yyvaluep).c_string) = NULL; }
-#line 1792 "libyara/grammar.c"
+#line 1800 "libyara/grammar.c"
         break;
 
     case YYSYMBOL__STRING_OFFSET_: /* "string offset"  */
-#line 315 "libyara/grammar.y"
+#line 323 "libyara/grammar.y"
             { yr_free(((*yyvaluep).c_string)); ((*yyvaluep).c_string) = NULL; }
-#line 1798 "libyara/grammar.c"
+#line 1806 "libyara/grammar.c"
         break;
 
     case YYSYMBOL__STRING_LENGTH_: /* "string length"  */
-#line 316 "libyara/grammar.y"
+#line 324 "libyara/grammar.y"
             { yr_free(((*yyvaluep).c_string)); ((*yyvaluep).c_string) = NULL; }
-#line 1804 "libyara/grammar.c"
+#line 1812 "libyara/grammar.c"
         break;
 
     case YYSYMBOL__STRING_IDENTIFIER_WITH_WILDCARD_: /* "string identifier with wildcard"  */
-#line 318 "libyara/grammar.y"
+#line 326 "libyara/grammar.y"
             { yr_free(((*yyvaluep).c_string)); ((*yyvaluep).c_string) = NULL; }
-#line 1810 "libyara/grammar.c"
+#line 1818 "libyara/grammar.c"
         break;
 
     case YYSYMBOL__TEXT_STRING_: /* "text string"  */
-#line 319 "libyara/grammar.y"
+#line 327 "libyara/grammar.y"
             { yr_free(((*yyvaluep).sized_string)); ((*yyvaluep).sized_string) = NULL; }
-#line 1816 "libyara/grammar.c"
+#line 1824 "libyara/grammar.c"
         break;
 
     case YYSYMBOL__HEX_STRING_: /* "hex string"  */
-#line 320 "libyara/grammar.y"
+#line 328 "libyara/grammar.y"
             { yr_free(((*yyvaluep).sized_string)); ((*yyvaluep).sized_string) = NULL; }
-#line 1822 "libyara/grammar.c"
+#line 1830 "libyara/grammar.c"
         break;
 
     case YYSYMBOL__REGEXP_: /* "regular expression"  */
-#line 321 "libyara/grammar.y"
+#line 329 "libyara/grammar.y"
             { yr_free(((*yyvaluep).sized_string)); ((*yyvaluep).sized_string) = NULL; }
-#line 1828 "libyara/grammar.c"
+#line 1836 "libyara/grammar.c"
         break;
 
     case YYSYMBOL_string_modifiers: /* string_modifiers  */
+#line 342 "libyara/grammar.y"
+            {
+  if (((*yyvaluep).modifier).alphabet != NULL)
+  {
+    yr_free(((*yyvaluep).modifier).alphabet);
+    ((*yyvaluep).modifier).alphabet = NULL;
+  }
+}
+#line 1848 "libyara/grammar.c"
+        break;
+
+    case YYSYMBOL_string_modifier: /* string_modifier  */
 #line 334 "libyara/grammar.y"
             {
   if (((*yyvaluep).modifier).alphabet != NULL)
@@ -1836,31 +1856,19 @@ yydestruct (const char *yymsg,
     ((*yyvaluep).modifier).alphabet = NULL;
   }
 }
-#line 1840 "libyara/grammar.c"
-        break;
-
-    case YYSYMBOL_string_modifier: /* string_modifier  */
-#line 326 "libyara/grammar.y"
-            {
-  if (((*yyvaluep).modifier).alphabet != NULL)
-  {
-    yr_free(((*yyvaluep).modifier).alphabet);
-    ((*yyvaluep).modifier).alphabet = NULL;
-  }
-}
-#line 1852 "libyara/grammar.c"
+#line 1860 "libyara/grammar.c"
         break;
 
     case YYSYMBOL_arguments: /* arguments  */
-#line 323 "libyara/grammar.y"
+#line 331 "libyara/grammar.y"
             { yr_free(((*yyvaluep).c_string)); ((*yyvaluep).c_string) = NULL; }
-#line 1858 "libyara/grammar.c"
+#line 1866 "libyara/grammar.c"
         break;
 
     case YYSYMBOL_arguments_list: /* arguments_list  */
-#line 324 "libyara/grammar.y"
+#line 332 "libyara/grammar.y"
             { yr_free(((*yyvaluep).c_string)); ((*yyvaluep).c_string) = NULL; }
-#line 1864 "libyara/grammar.c"
+#line 1872 "libyara/grammar.c"
         break;
 
       default:
@@ -2137,23 +2145,23 @@ yyreduce:
   switch (yyn)
     {
   case 8: /* rules: rules "end of included file"  */
-#line 369 "libyara/grammar.y"
-      {
-        _yr_compiler_pop_file_name(compiler);
-      }
-#line 2145 "libyara/grammar.c"
-    break;
-
-  case 9: /* rules: rules error "end of included file"  */
-#line 373 "libyara/grammar.y"
+#line 377 "libyara/grammar.y"
       {
         _yr_compiler_pop_file_name(compiler);
       }
 #line 2153 "libyara/grammar.c"
     break;
 
-  case 10: /* import: "<import>" "text string"  */
+  case 9: /* rules: rules error "end of included file"  */
 #line 381 "libyara/grammar.y"
+      {
+        _yr_compiler_pop_file_name(compiler);
+      }
+#line 2161 "libyara/grammar.c"
+    break;
+
+  case 10: /* import: "<import>" "text string"  */
+#line 389 "libyara/grammar.y"
       {
         int result = yr_parser_reduce_import(yyscanner, (yyvsp[0].sized_string));
 
@@ -2161,20 +2169,20 @@ yyreduce:
 
         fail_if_error(result);
       }
-#line 2165 "libyara/grammar.c"
+#line 2173 "libyara/grammar.c"
     break;
 
   case 11: /* @1: %empty  */
-#line 393 "libyara/grammar.y"
+#line 401 "libyara/grammar.y"
       {
         fail_if_error(yr_parser_reduce_rule_declaration_phase_1(
             yyscanner, (int32_t) (yyvsp[-2].integer), (yyvsp[0].c_string), &(yyval.rule)));
       }
-#line 2174 "libyara/grammar.c"
+#line 2182 "libyara/grammar.c"
     break;
 
   case 12: /* $@2: %empty  */
-#line 398 "libyara/grammar.y"
+#line 406 "libyara/grammar.y"
       {
         YR_RULE* rule = (YR_RULE*) yr_arena_ref_to_ptr(
             compiler->arena, &(yyvsp[-4].rule));
@@ -2188,11 +2196,11 @@ yyreduce:
         rule->strings = (YR_STRING*) yr_arena_ref_to_ptr(
             compiler->arena, &(yyvsp[0].string));
       }
-#line 2192 "libyara/grammar.c"
+#line 2200 "libyara/grammar.c"
     break;
 
   case 13: /* rule: rule_modifiers "<rule>" "identifier" @1 tags '{' meta strings $@2 condition '}'  */
-#line 412 "libyara/grammar.y"
+#line 420 "libyara/grammar.y"
       {
         YR_RULE* rule = (YR_RULE*) yr_arena_ref_to_ptr(
             compiler->arena, &(yyvsp[-7].rule));
@@ -2205,19 +2213,19 @@ yyreduce:
 
         fail_if_error(result);
       }
-#line 2209 "libyara/grammar.c"
-    break;
-
-  case 14: /* meta: %empty  */
-#line 429 "libyara/grammar.y"
-      {
-        (yyval.meta) = YR_ARENA_NULL_REF;
-      }
 #line 2217 "libyara/grammar.c"
     break;
 
+  case 14: /* meta: %empty  */
+#line 437 "libyara/grammar.y"
+      {
+        (yyval.meta) = YR_ARENA_NULL_REF;
+      }
+#line 2225 "libyara/grammar.c"
+    break;
+
   case 15: /* meta: "<meta>" ':' meta_declarations  */
-#line 433 "libyara/grammar.y"
+#line 441 "libyara/grammar.y"
       {
         YR_META* meta = yr_arena_get_ptr(
             compiler->arena,
@@ -2228,19 +2236,19 @@ yyreduce:
 
         (yyval.meta) = (yyvsp[0].meta);
       }
-#line 2232 "libyara/grammar.c"
-    break;
-
-  case 16: /* strings: %empty  */
-#line 448 "libyara/grammar.y"
-      {
-        (yyval.string) = YR_ARENA_NULL_REF;
-      }
 #line 2240 "libyara/grammar.c"
     break;
 
+  case 16: /* strings: %empty  */
+#line 456 "libyara/grammar.y"
+      {
+        (yyval.string) = YR_ARENA_NULL_REF;
+      }
+#line 2248 "libyara/grammar.c"
+    break;
+
   case 17: /* strings: "<strings>" ':' string_declarations  */
-#line 452 "libyara/grammar.y"
+#line 460 "libyara/grammar.y"
       {
         YR_STRING* string = (YR_STRING*) yr_arena_get_ptr(
             compiler->arena,
@@ -2251,51 +2259,51 @@ yyreduce:
 
         (yyval.string) = (yyvsp[0].string);
       }
-#line 2255 "libyara/grammar.c"
-    break;
-
-  case 18: /* condition: "<condition>" ':' boolean_expression  */
-#line 467 "libyara/grammar.y"
-      {
-        (yyval.expression) = (yyvsp[0].expression);
-      }
 #line 2263 "libyara/grammar.c"
     break;
 
+  case 18: /* condition: "<condition>" ':' boolean_expression  */
+#line 475 "libyara/grammar.y"
+      {
+        (yyval.expression) = (yyvsp[0].expression);
+      }
+#line 2271 "libyara/grammar.c"
+    break;
+
   case 19: /* rule_modifiers: %empty  */
-#line 474 "libyara/grammar.y"
+#line 482 "libyara/grammar.y"
                                        { (yyval.integer) = 0;  }
-#line 2269 "libyara/grammar.c"
+#line 2277 "libyara/grammar.c"
     break;
 
   case 20: /* rule_modifiers: rule_modifiers rule_modifier  */
-#line 475 "libyara/grammar.y"
+#line 483 "libyara/grammar.y"
                                        { (yyval.integer) = (yyvsp[-1].integer) | (yyvsp[0].integer); }
-#line 2275 "libyara/grammar.c"
+#line 2283 "libyara/grammar.c"
     break;
 
   case 21: /* rule_modifier: "<private>"  */
-#line 480 "libyara/grammar.y"
+#line 488 "libyara/grammar.y"
                      { (yyval.integer) = RULE_FLAGS_PRIVATE; }
-#line 2281 "libyara/grammar.c"
+#line 2289 "libyara/grammar.c"
     break;
 
   case 22: /* rule_modifier: "<global>"  */
-#line 481 "libyara/grammar.y"
+#line 489 "libyara/grammar.y"
                      { (yyval.integer) = RULE_FLAGS_GLOBAL; }
-#line 2287 "libyara/grammar.c"
-    break;
-
-  case 23: /* tags: %empty  */
-#line 487 "libyara/grammar.y"
-      {
-        (yyval.tag) = YR_ARENA_NULL_REF;
-      }
 #line 2295 "libyara/grammar.c"
     break;
 
+  case 23: /* tags: %empty  */
+#line 495 "libyara/grammar.y"
+      {
+        (yyval.tag) = YR_ARENA_NULL_REF;
+      }
+#line 2303 "libyara/grammar.c"
+    break;
+
   case 24: /* tags: ':' tag_list  */
-#line 491 "libyara/grammar.y"
+#line 499 "libyara/grammar.y"
       {
         // Tags list is represented in the arena as a sequence
         // of null-terminated strings, the sequence ends with an
@@ -2307,11 +2315,11 @@ yyreduce:
 
         (yyval.tag) = (yyvsp[0].tag);
       }
-#line 2311 "libyara/grammar.c"
+#line 2319 "libyara/grammar.c"
     break;
 
   case 25: /* tag_list: "identifier"  */
-#line 507 "libyara/grammar.y"
+#line 515 "libyara/grammar.y"
       {
         int result = yr_arena_write_string(
             yyget_extra(yyscanner)->arena, YR_SZ_POOL, (yyvsp[0].c_string), &(yyval.tag));
@@ -2320,11 +2328,11 @@ yyreduce:
 
         fail_if_error(result);
       }
-#line 2324 "libyara/grammar.c"
+#line 2332 "libyara/grammar.c"
     break;
 
   case 26: /* tag_list: tag_list "identifier"  */
-#line 516 "libyara/grammar.y"
+#line 524 "libyara/grammar.y"
       {
         YR_ARENA_REF ref;
 
@@ -2361,23 +2369,23 @@ yyreduce:
 
         (yyval.tag) = (yyvsp[-1].tag);
       }
-#line 2365 "libyara/grammar.c"
+#line 2373 "libyara/grammar.c"
     break;
 
   case 27: /* meta_declarations: meta_declaration  */
-#line 557 "libyara/grammar.y"
+#line 565 "libyara/grammar.y"
                                           {  (yyval.meta) = (yyvsp[0].meta); }
-#line 2371 "libyara/grammar.c"
+#line 2379 "libyara/grammar.c"
     break;
 
   case 28: /* meta_declarations: meta_declarations meta_declaration  */
-#line 558 "libyara/grammar.y"
+#line 566 "libyara/grammar.y"
                                           {  (yyval.meta) = (yyvsp[-1].meta); }
-#line 2377 "libyara/grammar.c"
+#line 2385 "libyara/grammar.c"
     break;
 
   case 29: /* meta_declaration: "identifier" '=' "text string"  */
-#line 564 "libyara/grammar.y"
+#line 572 "libyara/grammar.y"
       {
         SIZED_STRING* sized_string = (yyvsp[0].sized_string);
 
@@ -2394,11 +2402,11 @@ yyreduce:
 
         fail_if_error(result);
       }
-#line 2398 "libyara/grammar.c"
+#line 2406 "libyara/grammar.c"
     break;
 
   case 30: /* meta_declaration: "identifier" '=' "integer number"  */
-#line 581 "libyara/grammar.y"
+#line 589 "libyara/grammar.y"
       {
         int result = yr_parser_reduce_meta_declaration(
             yyscanner,
@@ -2412,11 +2420,11 @@ yyreduce:
 
         fail_if_error(result);
       }
-#line 2416 "libyara/grammar.c"
+#line 2424 "libyara/grammar.c"
     break;
 
   case 31: /* meta_declaration: "identifier" '=' '-' "integer number"  */
-#line 595 "libyara/grammar.y"
+#line 603 "libyara/grammar.y"
       {
         int result = yr_parser_reduce_meta_declaration(
             yyscanner,
@@ -2430,11 +2438,11 @@ yyreduce:
 
         fail_if_error(result);
       }
-#line 2434 "libyara/grammar.c"
+#line 2442 "libyara/grammar.c"
     break;
 
   case 32: /* meta_declaration: "identifier" '=' "<true>"  */
-#line 609 "libyara/grammar.y"
+#line 617 "libyara/grammar.y"
       {
         int result = yr_parser_reduce_meta_declaration(
             yyscanner,
@@ -2448,11 +2456,11 @@ yyreduce:
 
         fail_if_error(result);
       }
-#line 2452 "libyara/grammar.c"
+#line 2460 "libyara/grammar.c"
     break;
 
   case 33: /* meta_declaration: "identifier" '=' "<false>"  */
-#line 623 "libyara/grammar.y"
+#line 631 "libyara/grammar.y"
       {
         int result = yr_parser_reduce_meta_declaration(
             yyscanner,
@@ -2466,31 +2474,31 @@ yyreduce:
 
         fail_if_error(result);
       }
-#line 2470 "libyara/grammar.c"
+#line 2478 "libyara/grammar.c"
     break;
 
   case 34: /* string_declarations: string_declaration  */
-#line 640 "libyara/grammar.y"
+#line 648 "libyara/grammar.y"
                                               { (yyval.string) = (yyvsp[0].string); }
-#line 2476 "libyara/grammar.c"
+#line 2484 "libyara/grammar.c"
     break;
 
   case 35: /* string_declarations: string_declarations string_declaration  */
-#line 641 "libyara/grammar.y"
+#line 649 "libyara/grammar.y"
                                               { (yyval.string) = (yyvsp[-1].string); }
-#line 2482 "libyara/grammar.c"
-    break;
-
-  case 36: /* $@3: %empty  */
-#line 647 "libyara/grammar.y"
-      {
-        compiler->current_line = yyget_lineno(yyscanner);
-      }
 #line 2490 "libyara/grammar.c"
     break;
 
+  case 36: /* $@3: %empty  */
+#line 655 "libyara/grammar.y"
+      {
+        compiler->current_line = yyget_lineno(yyscanner);
+      }
+#line 2498 "libyara/grammar.c"
+    break;
+
   case 37: /* string_declaration: "string identifier" '=' $@3 "text string" string_modifiers  */
-#line 651 "libyara/grammar.y"
+#line 659 "libyara/grammar.y"
       {
         int result = yr_parser_reduce_string_declaration(
             yyscanner, (yyvsp[0].modifier), (yyvsp[-4].c_string), (yyvsp[-1].sized_string), &(yyval.string));
@@ -2502,19 +2510,19 @@ yyreduce:
         fail_if_error(result);
         compiler->current_line = 0;
       }
-#line 2506 "libyara/grammar.c"
-    break;
-
-  case 38: /* $@4: %empty  */
-#line 663 "libyara/grammar.y"
-      {
-        compiler->current_line = yyget_lineno(yyscanner);
-      }
 #line 2514 "libyara/grammar.c"
     break;
 
+  case 38: /* $@4: %empty  */
+#line 671 "libyara/grammar.y"
+      {
+        compiler->current_line = yyget_lineno(yyscanner);
+      }
+#line 2522 "libyara/grammar.c"
+    break;
+
   case 39: /* string_declaration: "string identifier" '=' $@4 "regular expression" regexp_modifiers  */
-#line 667 "libyara/grammar.y"
+#line 675 "libyara/grammar.y"
       {
         int result;
 
@@ -2530,19 +2538,19 @@ yyreduce:
 
         compiler->current_line = 0;
       }
-#line 2534 "libyara/grammar.c"
-    break;
-
-  case 40: /* $@5: %empty  */
-#line 683 "libyara/grammar.y"
-      {
-        compiler->current_line = yyget_lineno(yyscanner);
-      }
 #line 2542 "libyara/grammar.c"
     break;
 
+  case 40: /* $@5: %empty  */
+#line 691 "libyara/grammar.y"
+      {
+        compiler->current_line = yyget_lineno(yyscanner);
+      }
+#line 2550 "libyara/grammar.c"
+    break;
+
   case 41: /* string_declaration: "string identifier" '=' $@5 "hex string" hex_modifiers  */
-#line 687 "libyara/grammar.y"
+#line 695 "libyara/grammar.y"
       {
         int result;
 
@@ -2558,22 +2566,22 @@ yyreduce:
 
         compiler->current_line = 0;
       }
-#line 2562 "libyara/grammar.c"
+#line 2570 "libyara/grammar.c"
     break;
 
   case 42: /* string_modifiers: %empty  */
-#line 707 "libyara/grammar.y"
+#line 715 "libyara/grammar.y"
       {
         (yyval.modifier).flags = 0;
         (yyval.modifier).xor_min = 0;
         (yyval.modifier).xor_max = 0;
         (yyval.modifier).alphabet = NULL;
       }
-#line 2573 "libyara/grammar.c"
+#line 2581 "libyara/grammar.c"
     break;
 
   case 43: /* string_modifiers: string_modifiers string_modifier  */
-#line 714 "libyara/grammar.y"
+#line 722 "libyara/grammar.y"
       {
         (yyval.modifier) = (yyvsp[-1].modifier);
 
@@ -2629,51 +2637,51 @@ yyreduce:
           (yyval.modifier).flags = (yyval.modifier).flags | (yyvsp[0].modifier).flags;
         }
       }
-#line 2633 "libyara/grammar.c"
+#line 2641 "libyara/grammar.c"
     break;
 
   case 44: /* string_modifier: "<wide>"  */
-#line 773 "libyara/grammar.y"
+#line 781 "libyara/grammar.y"
                     { (yyval.modifier).flags = STRING_FLAGS_WIDE; }
-#line 2639 "libyara/grammar.c"
+#line 2647 "libyara/grammar.c"
     break;
 
   case 45: /* string_modifier: "<ascii>"  */
-#line 774 "libyara/grammar.y"
+#line 782 "libyara/grammar.y"
                     { (yyval.modifier).flags = STRING_FLAGS_ASCII; }
-#line 2645 "libyara/grammar.c"
+#line 2653 "libyara/grammar.c"
     break;
 
   case 46: /* string_modifier: "<nocase>"  */
-#line 775 "libyara/grammar.y"
+#line 783 "libyara/grammar.y"
                     { (yyval.modifier).flags = STRING_FLAGS_NO_CASE; }
-#line 2651 "libyara/grammar.c"
+#line 2659 "libyara/grammar.c"
     break;
 
   case 47: /* string_modifier: "<fullword>"  */
-#line 776 "libyara/grammar.y"
+#line 784 "libyara/grammar.y"
                     { (yyval.modifier).flags = STRING_FLAGS_FULL_WORD; }
-#line 2657 "libyara/grammar.c"
+#line 2665 "libyara/grammar.c"
     break;
 
   case 48: /* string_modifier: "<private>"  */
-#line 777 "libyara/grammar.y"
+#line 785 "libyara/grammar.y"
                     { (yyval.modifier).flags = STRING_FLAGS_PRIVATE; }
-#line 2663 "libyara/grammar.c"
+#line 2671 "libyara/grammar.c"
     break;
 
   case 49: /* string_modifier: "<xor>"  */
-#line 779 "libyara/grammar.y"
+#line 787 "libyara/grammar.y"
       {
         (yyval.modifier).flags = STRING_FLAGS_XOR;
         (yyval.modifier).xor_min = 0;
         (yyval.modifier).xor_max = 255;
       }
-#line 2673 "libyara/grammar.c"
+#line 2681 "libyara/grammar.c"
     break;
 
   case 50: /* string_modifier: "<xor>" '(' "integer number" ')'  */
-#line 785 "libyara/grammar.y"
+#line 793 "libyara/grammar.y"
       {
         int result = ERROR_SUCCESS;
 
@@ -2689,11 +2697,11 @@ yyreduce:
         (yyval.modifier).xor_min = (uint8_t) (yyvsp[-1].integer);
         (yyval.modifier).xor_max = (uint8_t) (yyvsp[-1].integer);
       }
-#line 2693 "libyara/grammar.c"
+#line 2701 "libyara/grammar.c"
     break;
 
   case 51: /* string_modifier: "<xor>" '(' "integer number" '-' "integer number" ')'  */
-#line 806 "libyara/grammar.y"
+#line 814 "libyara/grammar.y"
       {
         int result = ERROR_SUCCESS;
 
@@ -2724,11 +2732,11 @@ yyreduce:
         (yyval.modifier).xor_min = (uint8_t) (yyvsp[-3].integer);
         (yyval.modifier).xor_max = (uint8_t) (yyvsp[-1].integer);
       }
-#line 2728 "libyara/grammar.c"
+#line 2736 "libyara/grammar.c"
     break;
 
   case 52: /* string_modifier: "<base64>"  */
-#line 837 "libyara/grammar.y"
+#line 845 "libyara/grammar.y"
       {
         (yyval.modifier).flags = STRING_FLAGS_BASE64;
         (yyval.modifier).alphabet = ss_new(DEFAULT_BASE64_ALPHABET);
@@ -2736,11 +2744,11 @@ yyreduce:
         if ((yyval.modifier).alphabet == NULL)
           fail_with_error(ERROR_INSUFFICIENT_MEMORY);
       }
-#line 2740 "libyara/grammar.c"
+#line 2748 "libyara/grammar.c"
     break;
 
   case 53: /* string_modifier: "<base64>" '(' "text string" ')'  */
-#line 845 "libyara/grammar.y"
+#line 853 "libyara/grammar.y"
       {
         int result = ERROR_SUCCESS;
 
@@ -2757,11 +2765,11 @@ yyreduce:
         (yyval.modifier).flags = STRING_FLAGS_BASE64;
         (yyval.modifier).alphabet = (yyvsp[-1].sized_string);
       }
-#line 2761 "libyara/grammar.c"
+#line 2769 "libyara/grammar.c"
     break;
 
   case 54: /* string_modifier: "<base64wide>"  */
-#line 862 "libyara/grammar.y"
+#line 870 "libyara/grammar.y"
       {
         (yyval.modifier).flags = STRING_FLAGS_BASE64_WIDE;
         (yyval.modifier).alphabet = ss_new(DEFAULT_BASE64_ALPHABET);
@@ -2769,11 +2777,11 @@ yyreduce:
         if ((yyval.modifier).alphabet == NULL)
           fail_with_error(ERROR_INSUFFICIENT_MEMORY);
       }
-#line 2773 "libyara/grammar.c"
+#line 2781 "libyara/grammar.c"
     break;
 
   case 55: /* string_modifier: "<base64wide>" '(' "text string" ')'  */
-#line 870 "libyara/grammar.y"
+#line 878 "libyara/grammar.y"
       {
         int result = ERROR_SUCCESS;
 
@@ -2790,17 +2798,17 @@ yyreduce:
         (yyval.modifier).flags = STRING_FLAGS_BASE64_WIDE;
         (yyval.modifier).alphabet = (yyvsp[-1].sized_string);
       }
-#line 2794 "libyara/grammar.c"
+#line 2802 "libyara/grammar.c"
     break;
 
   case 56: /* regexp_modifiers: %empty  */
-#line 889 "libyara/grammar.y"
+#line 897 "libyara/grammar.y"
                                           { (yyval.modifier).flags = 0; }
-#line 2800 "libyara/grammar.c"
+#line 2808 "libyara/grammar.c"
     break;
 
   case 57: /* regexp_modifiers: regexp_modifiers regexp_modifier  */
-#line 891 "libyara/grammar.y"
+#line 899 "libyara/grammar.y"
       {
         if ((yyvsp[-1].modifier).flags & (yyvsp[0].modifier).flags)
         {
@@ -2811,47 +2819,47 @@ yyreduce:
           (yyval.modifier).flags = (yyvsp[-1].modifier).flags | (yyvsp[0].modifier).flags;
         }
       }
-#line 2815 "libyara/grammar.c"
+#line 2823 "libyara/grammar.c"
     break;
 
   case 58: /* regexp_modifier: "<wide>"  */
-#line 904 "libyara/grammar.y"
+#line 912 "libyara/grammar.y"
                     { (yyval.modifier).flags = STRING_FLAGS_WIDE; }
-#line 2821 "libyara/grammar.c"
+#line 2829 "libyara/grammar.c"
     break;
 
   case 59: /* regexp_modifier: "<ascii>"  */
-#line 905 "libyara/grammar.y"
+#line 913 "libyara/grammar.y"
                     { (yyval.modifier).flags = STRING_FLAGS_ASCII; }
-#line 2827 "libyara/grammar.c"
+#line 2835 "libyara/grammar.c"
     break;
 
   case 60: /* regexp_modifier: "<nocase>"  */
-#line 906 "libyara/grammar.y"
+#line 914 "libyara/grammar.y"
                     { (yyval.modifier).flags = STRING_FLAGS_NO_CASE; }
-#line 2833 "libyara/grammar.c"
+#line 2841 "libyara/grammar.c"
     break;
 
   case 61: /* regexp_modifier: "<fullword>"  */
-#line 907 "libyara/grammar.y"
+#line 915 "libyara/grammar.y"
                     { (yyval.modifier).flags = STRING_FLAGS_FULL_WORD; }
-#line 2839 "libyara/grammar.c"
+#line 2847 "libyara/grammar.c"
     break;
 
   case 62: /* regexp_modifier: "<private>"  */
-#line 908 "libyara/grammar.y"
+#line 916 "libyara/grammar.y"
                     { (yyval.modifier).flags = STRING_FLAGS_PRIVATE; }
-#line 2845 "libyara/grammar.c"
+#line 2853 "libyara/grammar.c"
     break;
 
   case 63: /* hex_modifiers: %empty  */
-#line 912 "libyara/grammar.y"
+#line 920 "libyara/grammar.y"
                                           { (yyval.modifier).flags = 0; }
-#line 2851 "libyara/grammar.c"
+#line 2859 "libyara/grammar.c"
     break;
 
   case 64: /* hex_modifiers: hex_modifiers hex_modifier  */
-#line 914 "libyara/grammar.y"
+#line 922 "libyara/grammar.y"
       {
         if ((yyvsp[-1].modifier).flags & (yyvsp[0].modifier).flags)
         {
@@ -2862,17 +2870,17 @@ yyreduce:
           (yyval.modifier).flags = (yyvsp[-1].modifier).flags | (yyvsp[0].modifier).flags;
         }
       }
-#line 2866 "libyara/grammar.c"
+#line 2874 "libyara/grammar.c"
     break;
 
   case 65: /* hex_modifier: "<private>"  */
-#line 927 "libyara/grammar.y"
+#line 935 "libyara/grammar.y"
                     { (yyval.modifier).flags = STRING_FLAGS_PRIVATE; }
-#line 2872 "libyara/grammar.c"
+#line 2880 "libyara/grammar.c"
     break;
 
   case 66: /* identifier: "identifier"  */
-#line 932 "libyara/grammar.y"
+#line 940 "libyara/grammar.y"
       {
         YR_EXPRESSION expr;
 
@@ -2968,11 +2976,11 @@ yyreduce:
 
         fail_if_error(result);
       }
-#line 2972 "libyara/grammar.c"
+#line 2980 "libyara/grammar.c"
     break;
 
   case 67: /* identifier: identifier '.' "identifier"  */
-#line 1028 "libyara/grammar.y"
+#line 1036 "libyara/grammar.y"
       {
         int result = ERROR_SUCCESS;
         YR_OBJECT* field = NULL;
@@ -3020,11 +3028,11 @@ yyreduce:
 
         fail_if_error(result);
       }
-#line 3024 "libyara/grammar.c"
+#line 3032 "libyara/grammar.c"
     break;
 
   case 68: /* identifier: identifier '[' primary_expression ']'  */
-#line 1076 "libyara/grammar.y"
+#line 1084 "libyara/grammar.y"
       {
         int result = ERROR_SUCCESS;
         YR_OBJECT_ARRAY* array;
@@ -3084,11 +3092,11 @@ yyreduce:
 
         fail_if_error(result);
       }
-#line 3088 "libyara/grammar.c"
+#line 3096 "libyara/grammar.c"
     break;
 
   case 69: /* identifier: identifier '(' arguments ')'  */
-#line 1137 "libyara/grammar.y"
+#line 1145 "libyara/grammar.y"
       {
         YR_ARENA_REF ref = YR_ARENA_NULL_REF;
         int result = ERROR_SUCCESS;
@@ -3129,23 +3137,23 @@ yyreduce:
 
         fail_if_error(result);
       }
-#line 3133 "libyara/grammar.c"
+#line 3141 "libyara/grammar.c"
     break;
 
   case 70: /* arguments: %empty  */
-#line 1181 "libyara/grammar.y"
+#line 1189 "libyara/grammar.y"
                       { (yyval.c_string) = yr_strdup(""); }
-#line 3139 "libyara/grammar.c"
+#line 3147 "libyara/grammar.c"
     break;
 
   case 71: /* arguments: arguments_list  */
-#line 1182 "libyara/grammar.y"
+#line 1190 "libyara/grammar.y"
                       { (yyval.c_string) = (yyvsp[0].c_string); }
-#line 3145 "libyara/grammar.c"
+#line 3153 "libyara/grammar.c"
     break;
 
   case 72: /* arguments_list: expression  */
-#line 1187 "libyara/grammar.y"
+#line 1195 "libyara/grammar.y"
       {
         (yyval.c_string) = (char*) yr_malloc(YR_MAX_FUNCTION_ARGS + 1);
 
@@ -3180,11 +3188,11 @@ yyreduce:
             assert(compiler->last_error != ERROR_SUCCESS);
         }
       }
-#line 3184 "libyara/grammar.c"
+#line 3192 "libyara/grammar.c"
     break;
 
   case 73: /* arguments_list: arguments_list ',' expression  */
-#line 1222 "libyara/grammar.y"
+#line 1230 "libyara/grammar.y"
       {
         int result = ERROR_SUCCESS;
 
@@ -3233,11 +3241,11 @@ yyreduce:
 
         (yyval.c_string) = (yyvsp[-2].c_string);
       }
-#line 3237 "libyara/grammar.c"
+#line 3245 "libyara/grammar.c"
     break;
 
   case 74: /* regexp: "regular expression"  */
-#line 1275 "libyara/grammar.y"
+#line 1283 "libyara/grammar.y"
       {
         YR_ARENA_REF re_ref;
         RE_ERROR error;
@@ -3288,11 +3296,11 @@ yyreduce:
 
         (yyval.expression).type = EXPRESSION_TYPE_REGEXP;
       }
-#line 3292 "libyara/grammar.c"
+#line 3300 "libyara/grammar.c"
     break;
 
   case 75: /* boolean_expression: expression  */
-#line 1330 "libyara/grammar.y"
+#line 1338 "libyara/grammar.y"
       {
         if ((yyvsp[0].expression).type == EXPRESSION_TYPE_STRING)
         {
@@ -3320,33 +3328,33 @@ yyreduce:
 
         (yyval.expression).type = EXPRESSION_TYPE_BOOLEAN;
       }
-#line 3324 "libyara/grammar.c"
+#line 3332 "libyara/grammar.c"
     break;
 
   case 76: /* expression: "<true>"  */
-#line 1361 "libyara/grammar.y"
+#line 1369 "libyara/grammar.y"
       {
         fail_if_error(yr_parser_emit_push_const(yyscanner, 1));
 
         (yyval.expression).type = EXPRESSION_TYPE_BOOLEAN;
         (yyval.expression).required_strings.count = 0;
       }
-#line 3335 "libyara/grammar.c"
+#line 3343 "libyara/grammar.c"
     break;
 
   case 77: /* expression: "<false>"  */
-#line 1368 "libyara/grammar.y"
+#line 1376 "libyara/grammar.y"
       {
         fail_if_error(yr_parser_emit_push_const(yyscanner, 0));
 
         (yyval.expression).type = EXPRESSION_TYPE_BOOLEAN;
         (yyval.expression).required_strings.count = 0;
       }
-#line 3346 "libyara/grammar.c"
+#line 3354 "libyara/grammar.c"
     break;
 
   case 78: /* expression: primary_expression "<matches>" regexp  */
-#line 1375 "libyara/grammar.y"
+#line 1383 "libyara/grammar.y"
       {
         check_type((yyvsp[-2].expression), EXPRESSION_TYPE_STRING, "matches");
         check_type((yyvsp[0].expression), EXPRESSION_TYPE_REGEXP, "matches");
@@ -3359,11 +3367,11 @@ yyreduce:
         (yyval.expression).type = EXPRESSION_TYPE_BOOLEAN;
         (yyval.expression).required_strings.count = 0;
       }
-#line 3363 "libyara/grammar.c"
+#line 3371 "libyara/grammar.c"
     break;
 
   case 79: /* expression: primary_expression "<contains>" primary_expression  */
-#line 1388 "libyara/grammar.y"
+#line 1396 "libyara/grammar.y"
       {
         check_type((yyvsp[-2].expression), EXPRESSION_TYPE_STRING, "contains");
         check_type((yyvsp[0].expression), EXPRESSION_TYPE_STRING, "contains");
@@ -3374,11 +3382,11 @@ yyreduce:
         (yyval.expression).type = EXPRESSION_TYPE_BOOLEAN;
         (yyval.expression).required_strings.count = 0;
       }
-#line 3378 "libyara/grammar.c"
+#line 3386 "libyara/grammar.c"
     break;
 
   case 80: /* expression: primary_expression "<icontains>" primary_expression  */
-#line 1399 "libyara/grammar.y"
+#line 1407 "libyara/grammar.y"
       {
         check_type((yyvsp[-2].expression), EXPRESSION_TYPE_STRING, "icontains");
         check_type((yyvsp[0].expression), EXPRESSION_TYPE_STRING, "icontains");
@@ -3389,11 +3397,11 @@ yyreduce:
         (yyval.expression).type = EXPRESSION_TYPE_BOOLEAN;
         (yyval.expression).required_strings.count = 0;
       }
-#line 3393 "libyara/grammar.c"
+#line 3401 "libyara/grammar.c"
     break;
 
   case 81: /* expression: primary_expression "<startswith>" primary_expression  */
-#line 1410 "libyara/grammar.y"
+#line 1418 "libyara/grammar.y"
       {
         check_type((yyvsp[-2].expression), EXPRESSION_TYPE_STRING, "startswith");
         check_type((yyvsp[0].expression), EXPRESSION_TYPE_STRING, "startswith");
@@ -3404,11 +3412,11 @@ yyreduce:
         (yyval.expression).type = EXPRESSION_TYPE_BOOLEAN;
         (yyval.expression).required_strings.count = 0;
       }
-#line 3408 "libyara/grammar.c"
+#line 3416 "libyara/grammar.c"
     break;
 
   case 82: /* expression: primary_expression "<istartswith>" primary_expression  */
-#line 1421 "libyara/grammar.y"
+#line 1429 "libyara/grammar.y"
       {
         check_type((yyvsp[-2].expression), EXPRESSION_TYPE_STRING, "istartswith");
         check_type((yyvsp[0].expression), EXPRESSION_TYPE_STRING, "istartswith");
@@ -3419,11 +3427,11 @@ yyreduce:
         (yyval.expression).type = EXPRESSION_TYPE_BOOLEAN;
         (yyval.expression).required_strings.count = 0;
       }
-#line 3423 "libyara/grammar.c"
+#line 3431 "libyara/grammar.c"
     break;
 
   case 83: /* expression: primary_expression "<endswith>" primary_expression  */
-#line 1432 "libyara/grammar.y"
+#line 1440 "libyara/grammar.y"
       {
         check_type((yyvsp[-2].expression), EXPRESSION_TYPE_STRING, "endswith");
         check_type((yyvsp[0].expression), EXPRESSION_TYPE_STRING, "endswith");
@@ -3434,11 +3442,11 @@ yyreduce:
         (yyval.expression).type = EXPRESSION_TYPE_BOOLEAN;
         (yyval.expression).required_strings.count = 0;
       }
-#line 3438 "libyara/grammar.c"
+#line 3446 "libyara/grammar.c"
     break;
 
   case 84: /* expression: primary_expression "<iendswith>" primary_expression  */
-#line 1443 "libyara/grammar.y"
+#line 1451 "libyara/grammar.y"
       {
         check_type((yyvsp[-2].expression), EXPRESSION_TYPE_STRING, "iendswith");
         check_type((yyvsp[0].expression), EXPRESSION_TYPE_STRING, "iendswith");
@@ -3449,11 +3457,11 @@ yyreduce:
         (yyval.expression).type = EXPRESSION_TYPE_BOOLEAN;
         (yyval.expression).required_strings.count = 0;
       }
-#line 3453 "libyara/grammar.c"
+#line 3461 "libyara/grammar.c"
     break;
 
   case 85: /* expression: primary_expression "<iequals>" primary_expression  */
-#line 1454 "libyara/grammar.y"
+#line 1462 "libyara/grammar.y"
       {
         check_type((yyvsp[-2].expression), EXPRESSION_TYPE_STRING, "iequals");
         check_type((yyvsp[0].expression), EXPRESSION_TYPE_STRING, "iequals");
@@ -3464,11 +3472,11 @@ yyreduce:
         (yyval.expression).type = EXPRESSION_TYPE_BOOLEAN;
         (yyval.expression).required_strings.count = 0;
       }
-#line 3468 "libyara/grammar.c"
+#line 3476 "libyara/grammar.c"
     break;
 
   case 86: /* expression: "string identifier"  */
-#line 1465 "libyara/grammar.y"
+#line 1473 "libyara/grammar.y"
       {
         int result = yr_parser_reduce_string_identifier(
             yyscanner,
@@ -3483,11 +3491,11 @@ yyreduce:
         (yyval.expression).type = EXPRESSION_TYPE_BOOLEAN;
         (yyval.expression).required_strings.count = 1;
       }
-#line 3487 "libyara/grammar.c"
+#line 3495 "libyara/grammar.c"
     break;
 
   case 87: /* expression: "string identifier" "<at>" primary_expression  */
-#line 1480 "libyara/grammar.y"
+#line 1488 "libyara/grammar.y"
       {
         int result;
 
@@ -3503,11 +3511,11 @@ yyreduce:
         (yyval.expression).required_strings.count = 1;
         (yyval.expression).type = EXPRESSION_TYPE_BOOLEAN;
       }
-#line 3507 "libyara/grammar.c"
+#line 3515 "libyara/grammar.c"
     break;
 
   case 88: /* expression: "string identifier" "<in>" range  */
-#line 1496 "libyara/grammar.y"
+#line 1504 "libyara/grammar.y"
       {
         int result = yr_parser_reduce_string_identifier(
             yyscanner, (yyvsp[-2].c_string), OP_FOUND_IN, YR_UNDEFINED);
@@ -3519,11 +3527,11 @@ yyreduce:
         (yyval.expression).required_strings.count = 1;
         (yyval.expression).type = EXPRESSION_TYPE_BOOLEAN;
       }
-#line 3523 "libyara/grammar.c"
+#line 3531 "libyara/grammar.c"
     break;
 
   case 89: /* expression: "<for>" for_expression error  */
-#line 1508 "libyara/grammar.y"
+#line 1516 "libyara/grammar.y"
       {
         // Free all the loop variable identifiers, including the variables for
         // the current loop (represented by loop_index), and set loop_index to
@@ -3540,11 +3548,11 @@ yyreduce:
         compiler->loop_index = -1;
         YYERROR;
       }
-#line 3544 "libyara/grammar.c"
+#line 3552 "libyara/grammar.c"
     break;
 
   case 90: /* $@6: %empty  */
-#line 1582 "libyara/grammar.y"
+#line 1590 "libyara/grammar.y"
       {
         // var_frame is used for accessing local variables used in this loop.
         // All local variables are accessed using var_frame as a reference,
@@ -3582,11 +3590,11 @@ yyreduce:
         fail_if_error(yr_parser_emit_with_arg(
             yyscanner, OP_POP_M, var_frame + 2, NULL, NULL));
       }
-#line 3586 "libyara/grammar.c"
+#line 3594 "libyara/grammar.c"
     break;
 
   case 91: /* $@7: %empty  */
-#line 1620 "libyara/grammar.y"
+#line 1628 "libyara/grammar.y"
       {
         YR_LOOP_CONTEXT* loop_ctx = &compiler->loop[compiler->loop_index];
         YR_FIXUP* fixup;
@@ -3635,11 +3643,11 @@ yyreduce:
 
         loop_ctx->start_ref = loop_start_ref;
       }
-#line 3639 "libyara/grammar.c"
+#line 3647 "libyara/grammar.c"
     break;
 
   case 92: /* expression: "<for>" for_expression $@6 for_iteration ':' $@7 '(' boolean_expression ')'  */
-#line 1669 "libyara/grammar.y"
+#line 1677 "libyara/grammar.y"
       {
         int32_t jmp_offset;
         YR_FIXUP* fixup;
@@ -3720,11 +3728,11 @@ yyreduce:
         (yyval.expression).type = EXPRESSION_TYPE_BOOLEAN;
         (yyval.expression).required_strings.count = 0;
       }
-#line 3724 "libyara/grammar.c"
+#line 3732 "libyara/grammar.c"
     break;
 
   case 93: /* expression: for_expression "<of>" string_set  */
-#line 1750 "libyara/grammar.y"
+#line 1758 "libyara/grammar.y"
       {
         if ((yyvsp[-2].expression).type == EXPRESSION_TYPE_INTEGER && (yyvsp[-2].expression).value.integer > (yyvsp[0].integer))
         {
@@ -3747,11 +3755,11 @@ yyreduce:
 
         (yyval.expression).type = EXPRESSION_TYPE_BOOLEAN;
       }
-#line 3751 "libyara/grammar.c"
+#line 3759 "libyara/grammar.c"
     break;
 
   case 94: /* expression: for_expression "<of>" rule_set  */
-#line 1773 "libyara/grammar.y"
+#line 1781 "libyara/grammar.y"
       {
         if ((yyvsp[-2].expression).type == EXPRESSION_TYPE_INTEGER && (yyvsp[-2].expression).value.integer > (yyvsp[0].integer))
         {
@@ -3763,11 +3771,11 @@ yyreduce:
         (yyval.expression).type = EXPRESSION_TYPE_BOOLEAN;
         (yyval.expression).required_strings.count = 0;
       }
-#line 3767 "libyara/grammar.c"
+#line 3775 "libyara/grammar.c"
     break;
 
   case 95: /* expression: primary_expression '%' "<of>" string_set  */
-#line 1785 "libyara/grammar.y"
+#line 1793 "libyara/grammar.y"
       {
         check_type((yyvsp[-3].expression), EXPRESSION_TYPE_INTEGER, "%");
 
@@ -3795,11 +3803,11 @@ yyreduce:
 
         yr_parser_emit_with_arg(yyscanner, OP_OF_PERCENT, OF_STRING_SET, NULL, NULL);
       }
-#line 3799 "libyara/grammar.c"
+#line 3807 "libyara/grammar.c"
     break;
 
   case 96: /* expression: primary_expression '%' "<of>" rule_set  */
-#line 1813 "libyara/grammar.y"
+#line 1821 "libyara/grammar.y"
       {
         check_type((yyvsp[-3].expression), EXPRESSION_TYPE_INTEGER, "%");
 
@@ -3818,11 +3826,11 @@ yyreduce:
 
         yr_parser_emit_with_arg(yyscanner, OP_OF_PERCENT, OF_RULE_SET, NULL, NULL);
       }
-#line 3822 "libyara/grammar.c"
+#line 3830 "libyara/grammar.c"
     break;
 
   case 97: /* expression: for_expression "<of>" string_set "<in>" range  */
-#line 1832 "libyara/grammar.y"
+#line 1840 "libyara/grammar.y"
       {
         if ((yyvsp[-4].expression).type == EXPRESSION_TYPE_INTEGER && (yyvsp[-4].expression).value.integer > (yyvsp[-2].integer))
         {
@@ -3845,11 +3853,11 @@ yyreduce:
 
         (yyval.expression).type = EXPRESSION_TYPE_BOOLEAN;
       }
-#line 3849 "libyara/grammar.c"
+#line 3857 "libyara/grammar.c"
     break;
 
   case 98: /* expression: for_expression "<of>" string_set "<at>" primary_expression  */
-#line 1855 "libyara/grammar.y"
+#line 1863 "libyara/grammar.y"
       {
         if ((yyvsp[0].expression).type != EXPRESSION_TYPE_INTEGER)
         {
@@ -3897,32 +3905,32 @@ yyreduce:
 
         (yyval.expression).type = EXPRESSION_TYPE_BOOLEAN;
       }
-#line 3901 "libyara/grammar.c"
+#line 3909 "libyara/grammar.c"
     break;
 
   case 99: /* expression: "<not>" boolean_expression  */
-#line 1903 "libyara/grammar.y"
+#line 1911 "libyara/grammar.y"
       {
         yr_parser_emit(yyscanner, OP_NOT, NULL);
 
         (yyval.expression).type = EXPRESSION_TYPE_BOOLEAN;
         (yyval.expression).required_strings.count = 0;
       }
-#line 3912 "libyara/grammar.c"
+#line 3920 "libyara/grammar.c"
     break;
 
   case 100: /* expression: "<defined>" boolean_expression  */
-#line 1910 "libyara/grammar.y"
+#line 1918 "libyara/grammar.y"
       {
         yr_parser_emit(yyscanner, OP_DEFINED, NULL);
         (yyval.expression).type = EXPRESSION_TYPE_BOOLEAN;
         (yyval.expression).required_strings.count = 0;
       }
-#line 3922 "libyara/grammar.c"
+#line 3930 "libyara/grammar.c"
     break;
 
   case 101: /* $@8: %empty  */
-#line 1916 "libyara/grammar.y"
+#line 1924 "libyara/grammar.y"
       {
         YR_FIXUP* fixup;
         YR_ARENA_REF jmp_offset_ref;
@@ -3944,11 +3952,11 @@ yyreduce:
         fixup->next = compiler->fixup_stack_head;
         compiler->fixup_stack_head = fixup;
       }
-#line 3948 "libyara/grammar.c"
+#line 3956 "libyara/grammar.c"
     break;
 
   case 102: /* expression: boolean_expression "<and>" $@8 boolean_expression  */
-#line 1938 "libyara/grammar.y"
+#line 1946 "libyara/grammar.y"
       {
         YR_FIXUP* fixup;
 
@@ -3972,11 +3980,11 @@ yyreduce:
         (yyval.expression).type = EXPRESSION_TYPE_BOOLEAN;
         (yyval.expression).required_strings.count = (yyvsp[0].expression).required_strings.count + (yyvsp[-3].expression).required_strings.count;
       }
-#line 3976 "libyara/grammar.c"
+#line 3984 "libyara/grammar.c"
     break;
 
   case 103: /* $@9: %empty  */
-#line 1962 "libyara/grammar.y"
+#line 1970 "libyara/grammar.y"
       {
         YR_FIXUP* fixup;
         YR_ARENA_REF jmp_offset_ref;
@@ -3997,11 +4005,11 @@ yyreduce:
         fixup->next = compiler->fixup_stack_head;
         compiler->fixup_stack_head = fixup;
       }
-#line 4001 "libyara/grammar.c"
+#line 4009 "libyara/grammar.c"
     break;
 
   case 104: /* expression: boolean_expression "<or>" $@9 boolean_expression  */
-#line 1983 "libyara/grammar.y"
+#line 1991 "libyara/grammar.y"
       {
         YR_FIXUP* fixup;
 
@@ -4031,11 +4039,11 @@ yyreduce:
           (yyval.expression).required_strings.count = (yyvsp[-3].expression).required_strings.count;
         }
       }
-#line 4035 "libyara/grammar.c"
+#line 4043 "libyara/grammar.c"
     break;
 
   case 105: /* expression: primary_expression "<" primary_expression  */
-#line 2013 "libyara/grammar.y"
+#line 2021 "libyara/grammar.y"
       {
         fail_if_error(yr_parser_reduce_operation(
             yyscanner, "<", (yyvsp[-2].expression), (yyvsp[0].expression)));
@@ -4043,11 +4051,11 @@ yyreduce:
         (yyval.expression).type = EXPRESSION_TYPE_BOOLEAN;
         (yyval.expression).required_strings.count = 0;
       }
-#line 4047 "libyara/grammar.c"
+#line 4055 "libyara/grammar.c"
     break;
 
   case 106: /* expression: primary_expression ">" primary_expression  */
-#line 2021 "libyara/grammar.y"
+#line 2029 "libyara/grammar.y"
       {
         fail_if_error(yr_parser_reduce_operation(
             yyscanner, ">", (yyvsp[-2].expression), (yyvsp[0].expression)));
@@ -4055,11 +4063,11 @@ yyreduce:
         (yyval.expression).type = EXPRESSION_TYPE_BOOLEAN;
         (yyval.expression).required_strings.count = 0;
       }
-#line 4059 "libyara/grammar.c"
+#line 4067 "libyara/grammar.c"
     break;
 
   case 107: /* expression: primary_expression "<=" primary_expression  */
-#line 2029 "libyara/grammar.y"
+#line 2037 "libyara/grammar.y"
       {
         fail_if_error(yr_parser_reduce_operation(
             yyscanner, "<=", (yyvsp[-2].expression), (yyvsp[0].expression)));
@@ -4067,11 +4075,11 @@ yyreduce:
         (yyval.expression).type = EXPRESSION_TYPE_BOOLEAN;
         (yyval.expression).required_strings.count = 0;
       }
-#line 4071 "libyara/grammar.c"
+#line 4079 "libyara/grammar.c"
     break;
 
   case 108: /* expression: primary_expression ">=" primary_expression  */
-#line 2037 "libyara/grammar.y"
+#line 2045 "libyara/grammar.y"
       {
         fail_if_error(yr_parser_reduce_operation(
             yyscanner, ">=", (yyvsp[-2].expression), (yyvsp[0].expression)));
@@ -4079,11 +4087,11 @@ yyreduce:
         (yyval.expression).type = EXPRESSION_TYPE_BOOLEAN;
         (yyval.expression).required_strings.count = 0;
       }
-#line 4083 "libyara/grammar.c"
+#line 4091 "libyara/grammar.c"
     break;
 
   case 109: /* expression: primary_expression "==" primary_expression  */
-#line 2045 "libyara/grammar.y"
+#line 2053 "libyara/grammar.y"
       {
         fail_if_error(yr_parser_reduce_operation(
             yyscanner, "==", (yyvsp[-2].expression), (yyvsp[0].expression)));
@@ -4091,11 +4099,11 @@ yyreduce:
         (yyval.expression).type = EXPRESSION_TYPE_BOOLEAN;
         (yyval.expression).required_strings.count = 0;
       }
-#line 4095 "libyara/grammar.c"
+#line 4103 "libyara/grammar.c"
     break;
 
   case 110: /* expression: primary_expression "!=" primary_expression  */
-#line 2053 "libyara/grammar.y"
+#line 2061 "libyara/grammar.y"
       {
         fail_if_error(yr_parser_reduce_operation(
             yyscanner, "!=", (yyvsp[-2].expression), (yyvsp[0].expression)));
@@ -4103,33 +4111,33 @@ yyreduce:
         (yyval.expression).type = EXPRESSION_TYPE_BOOLEAN;
         (yyval.expression).required_strings.count = 0;
       }
-#line 4107 "libyara/grammar.c"
-    break;
-
-  case 111: /* expression: primary_expression  */
-#line 2061 "libyara/grammar.y"
-      {
-        (yyval.expression) = (yyvsp[0].expression);
-      }
 #line 4115 "libyara/grammar.c"
     break;
 
-  case 112: /* expression: '(' expression ')'  */
-#line 2065 "libyara/grammar.y"
+  case 111: /* expression: primary_expression  */
+#line 2069 "libyara/grammar.y"
       {
-        (yyval.expression) = (yyvsp[-1].expression);
+        (yyval.expression) = (yyvsp[0].expression);
       }
 #line 4123 "libyara/grammar.c"
     break;
 
+  case 112: /* expression: '(' expression ')'  */
+#line 2073 "libyara/grammar.y"
+      {
+        (yyval.expression) = (yyvsp[-1].expression);
+      }
+#line 4131 "libyara/grammar.c"
+    break;
+
   case 113: /* for_iteration: for_variables "<in>" iterator  */
-#line 2072 "libyara/grammar.y"
+#line 2080 "libyara/grammar.y"
                                   { (yyval.integer) = FOR_ITERATION_ITERATOR; }
-#line 4129 "libyara/grammar.c"
+#line 4137 "libyara/grammar.c"
     break;
 
   case 114: /* for_iteration: "<of>" string_iterator  */
-#line 2074 "libyara/grammar.y"
+#line 2082 "libyara/grammar.y"
       {
         int var_frame;
         int result = ERROR_SUCCESS;
@@ -4150,11 +4158,11 @@ yyreduce:
 
         (yyval.integer) = FOR_ITERATION_STRING_SET;
       }
-#line 4154 "libyara/grammar.c"
+#line 4162 "libyara/grammar.c"
     break;
 
   case 115: /* for_variables: "identifier"  */
-#line 2099 "libyara/grammar.y"
+#line 2107 "libyara/grammar.y"
       {
         int result = ERROR_SUCCESS;
 
@@ -4174,11 +4182,11 @@ yyreduce:
 
         assert(loop_ctx->vars_count <= YR_MAX_LOOP_VARS);
       }
-#line 4178 "libyara/grammar.c"
+#line 4186 "libyara/grammar.c"
     break;
 
   case 116: /* for_variables: for_variables ',' "identifier"  */
-#line 2119 "libyara/grammar.y"
+#line 2127 "libyara/grammar.y"
       {
         int result = ERROR_SUCCESS;
 
@@ -4203,11 +4211,11 @@ yyreduce:
 
         loop_ctx->vars[loop_ctx->vars_count++].identifier.ptr = (yyvsp[0].c_string);
       }
-#line 4207 "libyara/grammar.c"
+#line 4215 "libyara/grammar.c"
     break;
 
   case 117: /* iterator: identifier  */
-#line 2147 "libyara/grammar.y"
+#line 2155 "libyara/grammar.y"
       {
         YR_LOOP_CONTEXT* loop_ctx = &compiler->loop[compiler->loop_index];
 
@@ -4281,11 +4289,11 @@ yyreduce:
 
         fail_if_error(result);
       }
-#line 4285 "libyara/grammar.c"
+#line 4293 "libyara/grammar.c"
     break;
 
   case 118: /* iterator: set  */
-#line 2221 "libyara/grammar.y"
+#line 2229 "libyara/grammar.y"
       {
         int result = ERROR_SUCCESS;
 
@@ -4313,11 +4321,11 @@ yyreduce:
 
         fail_if_error(result);
       }
-#line 4317 "libyara/grammar.c"
+#line 4325 "libyara/grammar.c"
     break;
 
   case 119: /* set: '(' enumeration ')'  */
-#line 2253 "libyara/grammar.y"
+#line 2261 "libyara/grammar.y"
       {
         // $2.count contains the number of items in the enumeration
         fail_if_error(yr_parser_emit_push_const(yyscanner, (yyvsp[-1].enumeration).count));
@@ -4335,22 +4343,22 @@ yyreduce:
 
         (yyval.enumeration).type = (yyvsp[-1].enumeration).type;
       }
-#line 4339 "libyara/grammar.c"
+#line 4347 "libyara/grammar.c"
     break;
 
   case 120: /* set: range  */
-#line 2271 "libyara/grammar.y"
+#line 2279 "libyara/grammar.y"
       {
         fail_if_error(yr_parser_emit(
             yyscanner, OP_ITER_START_INT_RANGE, NULL));
 
         (yyval.enumeration).type = EXPRESSION_TYPE_INTEGER;
       }
-#line 4350 "libyara/grammar.c"
+#line 4358 "libyara/grammar.c"
     break;
 
   case 121: /* range: '(' primary_expression ".." primary_expression ')'  */
-#line 2282 "libyara/grammar.y"
+#line 2290 "libyara/grammar.y"
       {
         int result = ERROR_SUCCESS;
 
@@ -4389,11 +4397,11 @@ yyreduce:
 
         fail_if_error(result);
       }
-#line 4393 "libyara/grammar.c"
+#line 4401 "libyara/grammar.c"
     break;
 
   case 122: /* enumeration: primary_expression  */
-#line 2325 "libyara/grammar.y"
+#line 2333 "libyara/grammar.y"
       {
         int result = ERROR_SUCCESS;
 
@@ -4409,11 +4417,11 @@ yyreduce:
         (yyval.enumeration).type = (yyvsp[0].expression).type;
         (yyval.enumeration).count = 1;
       }
-#line 4413 "libyara/grammar.c"
+#line 4421 "libyara/grammar.c"
     break;
 
   case 123: /* enumeration: enumeration ',' primary_expression  */
-#line 2341 "libyara/grammar.y"
+#line 2349 "libyara/grammar.y"
       {
         int result = ERROR_SUCCESS;
 
@@ -4429,38 +4437,38 @@ yyreduce:
         (yyval.enumeration).type = (yyvsp[-2].enumeration).type;
         (yyval.enumeration).count = (yyvsp[-2].enumeration).count + 1;
       }
-#line 4433 "libyara/grammar.c"
+#line 4441 "libyara/grammar.c"
     break;
 
   case 124: /* string_iterator: string_set  */
-#line 2361 "libyara/grammar.y"
+#line 2369 "libyara/grammar.y"
       {
         fail_if_error(yr_parser_emit_push_const(yyscanner, (yyvsp[0].integer)));
         fail_if_error(yr_parser_emit(yyscanner, OP_ITER_START_STRING_SET,
             NULL));
       }
-#line 4443 "libyara/grammar.c"
+#line 4451 "libyara/grammar.c"
     break;
 
   case 125: /* $@10: %empty  */
-#line 2370 "libyara/grammar.y"
+#line 2378 "libyara/grammar.y"
       {
         // Push end-of-list marker
         yr_parser_emit_push_const(yyscanner, YR_UNDEFINED);
       }
-#line 4452 "libyara/grammar.c"
-    break;
-
-  case 126: /* string_set: '(' $@10 string_enumeration ')'  */
-#line 2375 "libyara/grammar.y"
-      {
-        (yyval.integer) = (yyvsp[-1].integer);
-      }
 #line 4460 "libyara/grammar.c"
     break;
 
+  case 126: /* string_set: '(' $@10 string_enumeration ')'  */
+#line 2383 "libyara/grammar.y"
+      {
+        (yyval.integer) = (yyvsp[-1].integer);
+      }
+#line 4468 "libyara/grammar.c"
+    break;
+
   case 127: /* string_set: "<them>"  */
-#line 2379 "libyara/grammar.y"
+#line 2387 "libyara/grammar.y"
       {
         fail_if_error(yr_parser_emit_push_const(yyscanner, YR_UNDEFINED));
 
@@ -4470,23 +4478,23 @@ yyreduce:
 
         (yyval.integer) = count;
       }
-#line 4474 "libyara/grammar.c"
+#line 4482 "libyara/grammar.c"
     break;
 
   case 128: /* string_enumeration: string_enumeration_item  */
-#line 2392 "libyara/grammar.y"
+#line 2400 "libyara/grammar.y"
                               { (yyval.integer) = (yyvsp[0].integer); }
-#line 4480 "libyara/grammar.c"
+#line 4488 "libyara/grammar.c"
     break;
 
   case 129: /* string_enumeration: string_enumeration ',' string_enumeration_item  */
-#line 2393 "libyara/grammar.y"
+#line 2401 "libyara/grammar.y"
                                                      { (yyval.integer) = (yyvsp[-2].integer) + (yyvsp[0].integer); }
-#line 4486 "libyara/grammar.c"
+#line 4494 "libyara/grammar.c"
     break;
 
   case 130: /* string_enumeration_item: "string identifier"  */
-#line 2399 "libyara/grammar.y"
+#line 2407 "libyara/grammar.y"
       {
         int count = 0;
         int result = yr_parser_emit_pushes_for_strings(yyscanner, (yyvsp[0].c_string), &count);
@@ -4496,11 +4504,11 @@ yyreduce:
 
         (yyval.integer) = count;
       }
-#line 4500 "libyara/grammar.c"
+#line 4508 "libyara/grammar.c"
     break;
 
   case 131: /* string_enumeration_item: "string identifier with wildcard"  */
-#line 2409 "libyara/grammar.y"
+#line 2417 "libyara/grammar.y"
       {
         int count = 0;
         int result = yr_parser_emit_pushes_for_strings(yyscanner, (yyvsp[0].c_string), &count);
@@ -4510,40 +4518,40 @@ yyreduce:
 
         (yyval.integer) = count;
       }
-#line 4514 "libyara/grammar.c"
+#line 4522 "libyara/grammar.c"
     break;
 
   case 132: /* $@11: %empty  */
-#line 2423 "libyara/grammar.y"
+#line 2431 "libyara/grammar.y"
       {
         // Push end-of-list marker
         yr_parser_emit_push_const(yyscanner, YR_UNDEFINED);
       }
-#line 4523 "libyara/grammar.c"
-    break;
-
-  case 133: /* rule_set: '(' $@11 rule_enumeration ')'  */
-#line 2428 "libyara/grammar.y"
-      {
-        (yyval.integer) = (yyvsp[-1].integer);
-      }
 #line 4531 "libyara/grammar.c"
     break;
 
+  case 133: /* rule_set: '(' $@11 rule_enumeration ')'  */
+#line 2436 "libyara/grammar.y"
+      {
+        (yyval.integer) = (yyvsp[-1].integer);
+      }
+#line 4539 "libyara/grammar.c"
+    break;
+
   case 134: /* rule_enumeration: rule_enumeration_item  */
-#line 2435 "libyara/grammar.y"
+#line 2443 "libyara/grammar.y"
                             { (yyval.integer) = (yyvsp[0].integer); }
-#line 4537 "libyara/grammar.c"
+#line 4545 "libyara/grammar.c"
     break;
 
   case 135: /* rule_enumeration: rule_enumeration ',' rule_enumeration_item  */
-#line 2436 "libyara/grammar.y"
+#line 2444 "libyara/grammar.y"
                                                  { (yyval.integer) = (yyvsp[-2].integer) + (yyvsp[0].integer); }
-#line 4543 "libyara/grammar.c"
+#line 4551 "libyara/grammar.c"
     break;
 
   case 136: /* rule_enumeration_item: "identifier"  */
-#line 2442 "libyara/grammar.y"
+#line 2450 "libyara/grammar.y"
       {
         int result = ERROR_SUCCESS;
 
@@ -4576,11 +4584,11 @@ yyreduce:
 
         (yyval.integer) = 1;
       }
-#line 4580 "libyara/grammar.c"
+#line 4588 "libyara/grammar.c"
     break;
 
   case 137: /* rule_enumeration_item: "identifier" '*'  */
-#line 2475 "libyara/grammar.y"
+#line 2483 "libyara/grammar.y"
       {
         int count = 0;
         YR_NAMESPACE* ns = (YR_NAMESPACE*) yr_arena_get_ptr(
@@ -4601,11 +4609,11 @@ yyreduce:
 
         (yyval.integer) = count;
       }
-#line 4605 "libyara/grammar.c"
+#line 4613 "libyara/grammar.c"
     break;
 
   case 138: /* for_expression: primary_expression  */
-#line 2500 "libyara/grammar.y"
+#line 2508 "libyara/grammar.y"
       {
         if ((yyvsp[0].expression).type == EXPRESSION_TYPE_INTEGER && !IS_UNDEFINED((yyvsp[0].expression).value.integer))
         {
@@ -4661,57 +4669,57 @@ yyreduce:
 
         (yyval.expression).value.integer = (yyvsp[0].expression).value.integer;
       }
-#line 4665 "libyara/grammar.c"
-    break;
-
-  case 139: /* for_expression: for_quantifier  */
-#line 2556 "libyara/grammar.y"
-      {
-        (yyval.expression).value.integer = (yyvsp[0].expression).value.integer;
-      }
 #line 4673 "libyara/grammar.c"
     break;
 
+  case 139: /* for_expression: for_quantifier  */
+#line 2564 "libyara/grammar.y"
+      {
+        (yyval.expression).value.integer = (yyvsp[0].expression).value.integer;
+      }
+#line 4681 "libyara/grammar.c"
+    break;
+
   case 140: /* for_quantifier: "<all>"  */
-#line 2563 "libyara/grammar.y"
+#line 2571 "libyara/grammar.y"
       {
         yr_parser_emit_push_const(yyscanner, YR_UNDEFINED);
         (yyval.expression).type = EXPRESSION_TYPE_QUANTIFIER;
         (yyval.expression).value.integer = FOR_EXPRESSION_ALL;
      }
-#line 4683 "libyara/grammar.c"
+#line 4691 "libyara/grammar.c"
     break;
 
   case 141: /* for_quantifier: "<any>"  */
-#line 2569 "libyara/grammar.y"
+#line 2577 "libyara/grammar.y"
       {
         yr_parser_emit_push_const(yyscanner, 1);
         (yyval.expression).type = EXPRESSION_TYPE_QUANTIFIER;
         (yyval.expression).value.integer = FOR_EXPRESSION_ANY;
       }
-#line 4693 "libyara/grammar.c"
+#line 4701 "libyara/grammar.c"
     break;
 
   case 142: /* for_quantifier: "<none>"  */
-#line 2575 "libyara/grammar.y"
+#line 2583 "libyara/grammar.y"
       {
         yr_parser_emit_push_const(yyscanner, 0);
         (yyval.expression).type = EXPRESSION_TYPE_QUANTIFIER;
         (yyval.expression).value.integer = FOR_EXPRESSION_NONE;
       }
-#line 4703 "libyara/grammar.c"
-    break;
-
-  case 143: /* primary_expression: '(' primary_expression ')'  */
-#line 2585 "libyara/grammar.y"
-      {
-        (yyval.expression) = (yyvsp[-1].expression);
-      }
 #line 4711 "libyara/grammar.c"
     break;
 
+  case 143: /* primary_expression: '(' primary_expression ')'  */
+#line 2593 "libyara/grammar.y"
+      {
+        (yyval.expression) = (yyvsp[-1].expression);
+      }
+#line 4719 "libyara/grammar.c"
+    break;
+
   case 144: /* primary_expression: "<filesize>"  */
-#line 2589 "libyara/grammar.y"
+#line 2597 "libyara/grammar.y"
       {
         fail_if_error(yr_parser_emit(
             yyscanner, OP_FILESIZE, NULL));
@@ -4719,11 +4727,11 @@ yyreduce:
         (yyval.expression).type = EXPRESSION_TYPE_INTEGER;
         (yyval.expression).value.integer = YR_UNDEFINED;
       }
-#line 4723 "libyara/grammar.c"
+#line 4731 "libyara/grammar.c"
     break;
 
   case 145: /* primary_expression: "<entrypoint>"  */
-#line 2597 "libyara/grammar.y"
+#line 2605 "libyara/grammar.y"
       {
         yywarning(yyscanner,
             "using deprecated \"entrypoint\" keyword. Use the \"entry_point\" "
@@ -4735,11 +4743,11 @@ yyreduce:
         (yyval.expression).type = EXPRESSION_TYPE_INTEGER;
         (yyval.expression).value.integer = YR_UNDEFINED;
       }
-#line 4739 "libyara/grammar.c"
+#line 4747 "libyara/grammar.c"
     break;
 
   case 146: /* primary_expression: "integer function" '(' primary_expression ')'  */
-#line 2609 "libyara/grammar.y"
+#line 2617 "libyara/grammar.y"
       {
         check_type((yyvsp[-1].expression), EXPRESSION_TYPE_INTEGER, "intXXXX or uintXXXX");
 
@@ -4753,33 +4761,33 @@ yyreduce:
         (yyval.expression).type = EXPRESSION_TYPE_INTEGER;
         (yyval.expression).value.integer = YR_UNDEFINED;
       }
-#line 4757 "libyara/grammar.c"
+#line 4765 "libyara/grammar.c"
     break;
 
   case 147: /* primary_expression: "integer number"  */
-#line 2623 "libyara/grammar.y"
+#line 2631 "libyara/grammar.y"
       {
         fail_if_error(yr_parser_emit_push_const(yyscanner, (yyvsp[0].integer)));
 
         (yyval.expression).type = EXPRESSION_TYPE_INTEGER;
         (yyval.expression).value.integer = (yyvsp[0].integer);
       }
-#line 4768 "libyara/grammar.c"
+#line 4776 "libyara/grammar.c"
     break;
 
   case 148: /* primary_expression: "floating point number"  */
-#line 2630 "libyara/grammar.y"
+#line 2638 "libyara/grammar.y"
       {
         fail_if_error(yr_parser_emit_with_arg_double(
             yyscanner, OP_PUSH, (yyvsp[0].double_), NULL, NULL));
 
         (yyval.expression).type = EXPRESSION_TYPE_FLOAT;
       }
-#line 4779 "libyara/grammar.c"
+#line 4787 "libyara/grammar.c"
     break;
 
   case 149: /* primary_expression: "text string"  */
-#line 2637 "libyara/grammar.y"
+#line 2645 "libyara/grammar.y"
       {
         YR_ARENA_REF ref;
 
@@ -4804,11 +4812,11 @@ yyreduce:
         (yyval.expression).type = EXPRESSION_TYPE_STRING;
         (yyval.expression).value.sized_string_ref = ref;
       }
-#line 4808 "libyara/grammar.c"
+#line 4816 "libyara/grammar.c"
     break;
 
   case 150: /* primary_expression: "string count" "<in>" range  */
-#line 2662 "libyara/grammar.y"
+#line 2670 "libyara/grammar.y"
       {
         int result = yr_parser_reduce_string_identifier(
             yyscanner, (yyvsp[-2].c_string), OP_COUNT_IN, YR_UNDEFINED);
@@ -4820,11 +4828,11 @@ yyreduce:
         (yyval.expression).type = EXPRESSION_TYPE_INTEGER;
         (yyval.expression).value.integer = YR_UNDEFINED;
       }
-#line 4824 "libyara/grammar.c"
+#line 4832 "libyara/grammar.c"
     break;
 
   case 151: /* primary_expression: "string count"  */
-#line 2674 "libyara/grammar.y"
+#line 2682 "libyara/grammar.y"
       {
         int result = yr_parser_reduce_string_identifier(
             yyscanner, (yyvsp[0].c_string), OP_COUNT, YR_UNDEFINED);
@@ -4836,11 +4844,11 @@ yyreduce:
         (yyval.expression).type = EXPRESSION_TYPE_INTEGER;
         (yyval.expression).value.integer = YR_UNDEFINED;
       }
-#line 4840 "libyara/grammar.c"
+#line 4848 "libyara/grammar.c"
     break;
 
   case 152: /* primary_expression: "string offset" '[' primary_expression ']'  */
-#line 2686 "libyara/grammar.y"
+#line 2694 "libyara/grammar.y"
       {
         int result = yr_parser_reduce_string_identifier(
             yyscanner, (yyvsp[-3].c_string), OP_OFFSET, YR_UNDEFINED);
@@ -4852,11 +4860,11 @@ yyreduce:
         (yyval.expression).type = EXPRESSION_TYPE_INTEGER;
         (yyval.expression).value.integer = YR_UNDEFINED;
       }
-#line 4856 "libyara/grammar.c"
+#line 4864 "libyara/grammar.c"
     break;
 
   case 153: /* primary_expression: "string offset"  */
-#line 2698 "libyara/grammar.y"
+#line 2706 "libyara/grammar.y"
       {
         int result = yr_parser_emit_push_const(yyscanner, 1);
 
@@ -4871,11 +4879,11 @@ yyreduce:
         (yyval.expression).type = EXPRESSION_TYPE_INTEGER;
         (yyval.expression).value.integer = YR_UNDEFINED;
       }
-#line 4875 "libyara/grammar.c"
+#line 4883 "libyara/grammar.c"
     break;
 
   case 154: /* primary_expression: "string length" '[' primary_expression ']'  */
-#line 2713 "libyara/grammar.y"
+#line 2721 "libyara/grammar.y"
       {
         int result = yr_parser_reduce_string_identifier(
             yyscanner, (yyvsp[-3].c_string), OP_LENGTH, YR_UNDEFINED);
@@ -4887,11 +4895,11 @@ yyreduce:
         (yyval.expression).type = EXPRESSION_TYPE_INTEGER;
         (yyval.expression).value.integer = YR_UNDEFINED;
       }
-#line 4891 "libyara/grammar.c"
+#line 4899 "libyara/grammar.c"
     break;
 
   case 155: /* primary_expression: "string length"  */
-#line 2725 "libyara/grammar.y"
+#line 2733 "libyara/grammar.y"
       {
         int result = yr_parser_emit_push_const(yyscanner, 1);
 
@@ -4906,11 +4914,11 @@ yyreduce:
         (yyval.expression).type = EXPRESSION_TYPE_INTEGER;
         (yyval.expression).value.integer = YR_UNDEFINED;
       }
-#line 4910 "libyara/grammar.c"
+#line 4918 "libyara/grammar.c"
     break;
 
   case 156: /* primary_expression: identifier  */
-#line 2740 "libyara/grammar.y"
+#line 2748 "libyara/grammar.y"
       {
         int result = ERROR_SUCCESS;
 
@@ -4959,11 +4967,11 @@ yyreduce:
 
         fail_if_error(result);
       }
-#line 4963 "libyara/grammar.c"
+#line 4971 "libyara/grammar.c"
     break;
 
   case 157: /* primary_expression: '-' primary_expression  */
-#line 2789 "libyara/grammar.y"
+#line 2797 "libyara/grammar.y"
       {
         int result = ERROR_SUCCESS;
 
@@ -4984,11 +4992,11 @@ yyreduce:
 
         fail_if_error(result);
       }
-#line 4988 "libyara/grammar.c"
+#line 4996 "libyara/grammar.c"
     break;
 
   case 158: /* primary_expression: primary_expression '+' primary_expression  */
-#line 2810 "libyara/grammar.y"
+#line 2818 "libyara/grammar.y"
       {
         int result = yr_parser_reduce_operation(
             yyscanner, "+", (yyvsp[-2].expression), (yyvsp[0].expression));
@@ -5023,11 +5031,11 @@ yyreduce:
 
         fail_if_error(result);
       }
-#line 5027 "libyara/grammar.c"
+#line 5035 "libyara/grammar.c"
     break;
 
   case 159: /* primary_expression: primary_expression '-' primary_expression  */
-#line 2845 "libyara/grammar.y"
+#line 2853 "libyara/grammar.y"
       {
         int result = yr_parser_reduce_operation(
             yyscanner, "-", (yyvsp[-2].expression), (yyvsp[0].expression));
@@ -5062,11 +5070,11 @@ yyreduce:
 
         fail_if_error(result);
       }
-#line 5066 "libyara/grammar.c"
+#line 5074 "libyara/grammar.c"
     break;
 
   case 160: /* primary_expression: primary_expression '*' primary_expression  */
-#line 2880 "libyara/grammar.y"
+#line 2888 "libyara/grammar.y"
       {
         int result = yr_parser_reduce_operation(
             yyscanner, "*", (yyvsp[-2].expression), (yyvsp[0].expression));
@@ -5100,11 +5108,11 @@ yyreduce:
 
         fail_if_error(result);
       }
-#line 5104 "libyara/grammar.c"
+#line 5112 "libyara/grammar.c"
     break;
 
   case 161: /* primary_expression: primary_expression '\\' primary_expression  */
-#line 2914 "libyara/grammar.y"
+#line 2922 "libyara/grammar.y"
       {
         int result = yr_parser_reduce_operation(
             yyscanner, "\\", (yyvsp[-2].expression), (yyvsp[0].expression));
@@ -5136,11 +5144,11 @@ yyreduce:
 
         fail_if_error(result);
       }
-#line 5140 "libyara/grammar.c"
+#line 5148 "libyara/grammar.c"
     break;
 
   case 162: /* primary_expression: primary_expression '%' primary_expression  */
-#line 2946 "libyara/grammar.y"
+#line 2954 "libyara/grammar.y"
       {
         check_type((yyvsp[-2].expression), EXPRESSION_TYPE_INTEGER, "%");
         check_type((yyvsp[0].expression), EXPRESSION_TYPE_INTEGER, "%");
@@ -5164,11 +5172,11 @@ yyreduce:
           fail_if_error(ERROR_DIVISION_BY_ZERO);
         }
       }
-#line 5168 "libyara/grammar.c"
+#line 5176 "libyara/grammar.c"
     break;
 
   case 163: /* primary_expression: primary_expression '^' primary_expression  */
-#line 2970 "libyara/grammar.y"
+#line 2978 "libyara/grammar.y"
       {
         check_type((yyvsp[-2].expression), EXPRESSION_TYPE_INTEGER, "^");
         check_type((yyvsp[0].expression), EXPRESSION_TYPE_INTEGER, "^");
@@ -5178,11 +5186,11 @@ yyreduce:
         (yyval.expression).type = EXPRESSION_TYPE_INTEGER;
         (yyval.expression).value.integer = OPERATION(^, (yyvsp[-2].expression).value.integer, (yyvsp[0].expression).value.integer);
       }
-#line 5182 "libyara/grammar.c"
+#line 5190 "libyara/grammar.c"
     break;
 
   case 164: /* primary_expression: primary_expression '&' primary_expression  */
-#line 2980 "libyara/grammar.y"
+#line 2988 "libyara/grammar.y"
       {
         check_type((yyvsp[-2].expression), EXPRESSION_TYPE_INTEGER, "^");
         check_type((yyvsp[0].expression), EXPRESSION_TYPE_INTEGER, "^");
@@ -5192,11 +5200,11 @@ yyreduce:
         (yyval.expression).type = EXPRESSION_TYPE_INTEGER;
         (yyval.expression).value.integer = OPERATION(&, (yyvsp[-2].expression).value.integer, (yyvsp[0].expression).value.integer);
       }
-#line 5196 "libyara/grammar.c"
+#line 5204 "libyara/grammar.c"
     break;
 
   case 165: /* primary_expression: primary_expression '|' primary_expression  */
-#line 2990 "libyara/grammar.y"
+#line 2998 "libyara/grammar.y"
       {
         check_type((yyvsp[-2].expression), EXPRESSION_TYPE_INTEGER, "|");
         check_type((yyvsp[0].expression), EXPRESSION_TYPE_INTEGER, "|");
@@ -5206,11 +5214,11 @@ yyreduce:
         (yyval.expression).type = EXPRESSION_TYPE_INTEGER;
         (yyval.expression).value.integer = OPERATION(|, (yyvsp[-2].expression).value.integer, (yyvsp[0].expression).value.integer);
       }
-#line 5210 "libyara/grammar.c"
+#line 5218 "libyara/grammar.c"
     break;
 
   case 166: /* primary_expression: '~' primary_expression  */
-#line 3000 "libyara/grammar.y"
+#line 3008 "libyara/grammar.y"
       {
         check_type((yyvsp[0].expression), EXPRESSION_TYPE_INTEGER, "~");
 
@@ -5220,11 +5228,11 @@ yyreduce:
         (yyval.expression).value.integer = ((yyvsp[0].expression).value.integer == YR_UNDEFINED) ?
             YR_UNDEFINED : ~((yyvsp[0].expression).value.integer);
       }
-#line 5224 "libyara/grammar.c"
+#line 5232 "libyara/grammar.c"
     break;
 
   case 167: /* primary_expression: primary_expression "<<" primary_expression  */
-#line 3010 "libyara/grammar.y"
+#line 3018 "libyara/grammar.y"
       {
         int result;
 
@@ -5244,11 +5252,11 @@ yyreduce:
 
         fail_if_error(result);
       }
-#line 5248 "libyara/grammar.c"
+#line 5256 "libyara/grammar.c"
     break;
 
   case 168: /* primary_expression: primary_expression ">>" primary_expression  */
-#line 3030 "libyara/grammar.y"
+#line 3038 "libyara/grammar.y"
       {
         int result;
 
@@ -5268,19 +5276,19 @@ yyreduce:
 
         fail_if_error(result);
       }
-#line 5272 "libyara/grammar.c"
-    break;
-
-  case 169: /* primary_expression: regexp  */
-#line 3050 "libyara/grammar.y"
-      {
-        (yyval.expression) = (yyvsp[0].expression);
-      }
 #line 5280 "libyara/grammar.c"
     break;
 
+  case 169: /* primary_expression: regexp  */
+#line 3058 "libyara/grammar.y"
+      {
+        (yyval.expression) = (yyvsp[0].expression);
+      }
+#line 5288 "libyara/grammar.c"
+    break;
 
-#line 5284 "libyara/grammar.c"
+
+#line 5292 "libyara/grammar.c"
 
       default: break;
     }
@@ -5504,5 +5512,5 @@ yyreturnlab:
   return yyresult;
 }
 
-#line 3055 "libyara/grammar.y"
+#line 3063 "libyara/grammar.y"
 
